@@ -52,6 +52,12 @@ def main():
             fail('eval.measure.returned_bit_is_the_simulators_bit', 'prep %r: echoed %s, expected %s x3' % (prep, echoed, want))
         elif rows != [(want, '3')]:
             fail('eval.measure.recorded_and_tracked_bit_is_the_simulators_bit', 'prep %r: tracked rows %s, expected [(%s, 3)]' % (prep, rows, want))
+    # ---- whole-register measurement: each element's tracked bit is the simulator's bit of THAT qubit (registers that do not start at qubit 0)
+    src = '@shots(3)\nfunction main() -> void { qubit pad; @tracked qubit[2] lo; @tracked qubit[2] hi; x(hi[0]); x(hi[1]); measure lo; measure hi; }\n'
+    rc, out, err = run(bloch, src); n += 1
+    tab = dict(re.findall(r'^qubit\[\] (\w+)\n(?:.*\n){2}([01?]+)\s*\|', out, re.M))
+    if rc != 0 or tab != {'lo': '00', 'hi': '11'}:
+        fail('exec.measure.array.tracked_bit_is_the_simulators_bit', 'two tracked registers after a pad qubit: tracked outcomes %s, expected lo=00 hi=11 (%s)' % (tab, err.strip()[-80:]))
     print(json.dumps(dict(oracle_checks=n, oracle_failures=fails)))
     sys.exit(1 if fails else 0)
 main()
